@@ -64,6 +64,19 @@ Decide(l) ==
   ELSE IF Target = "size" THEN [ok |-> FitsBits(l.num, Shift(l.unit), 64), shift |-> Shift(l.unit), unit |-> "b"]
   ELSE [ok |-> FitsBits(l.num, 0, 63), shift |-> 0, unit |-> Lower(l.unit)]
 
+\* An interval that parses is usable by the time trigger iff it lies between one unit and 1000 years (the trigger's
+\* deserializer rejects everything else - zero has no next boundary, larger ones overflow the date arithmetic); the
+\* limits are 31 557 600 000 s, 525 960 000 min, 8 766 000 h, 365 250 d, 52 178 weeks, 12 000 months, 1000 years.
+\* For 2^k + d that is k <= MaxPow(unit); none of the limits is within 1 of a power of two.
+MaxPow(u) == CASE u = "second" -> 34 [] u = "minute" -> 28 [] u = "hour" -> 23 [] u = "day" -> 18 [] u = "week" -> 15
+               [] u = "month" -> 13 [] OTHER -> 9
+MaxSmall(u) == CASE u = "year" -> 1000 [] OTHER -> 1024       \* the small numbers are at most 1024
+InTriggerRange(num, u) ==
+  CASE num.t = "pow" -> (num.k <= MaxPow(u)) /\ ~(num.k = 0 /\ num.d = -1)          \* 2^0 - 1 = 0
+    [] num.t \in {"small", "lz"} -> num.n >= 1 /\ num.n <= MaxSmall(u)
+    [] OTHER -> FALSE
+TriggerOk(l) == Target = "interval" /\ Decide(l).ok /\ InTriggerRange(l.num, Decide(l).unit)
+
 VARIABLES lit, phase
 vars == <<lit, phase>>
 \* the full magnitude range with plain spelling, and the spelling variations on a few numbers
@@ -84,4 +97,5 @@ Next == Judge
 \* no accepted literal denotes a value outside the target type
 NoWrap == Decide(lit).ok => (lit.num.t = "huge" => FALSE) /\ FitsBits(lit.num, Decide(lit).shift, 64)
 Total == Decide(lit).ok \in BOOLEAN
+TriggerNeedsParse == TriggerOk(lit) => Decide(lit).ok
 =============================================================================
